@@ -350,7 +350,12 @@ def check_myokit_import(ctx: Ctx, rule: str):
             okm = False
             continue
         conds[field] = inner[4]
-    ctx.check(okm and len(conds) == 4, rule, f.key("component"), "every collected atom goes into the component", "MyokitComponent is not built from all collected states, parameters, intermediates and derivatives (each as the set of the atoms constructed for the component's variables)", f.where())
+    partitioned = [fld for fld in kinds if ck.get(fld) is not None and (_av.find_all(ck[fld], "fold") or any(c_[0] == "cmp" and c_[1] in ("is", "==") and "type(" in _av.show(c_) for c_ in _av.find_all(ck[fld], "cmp")) or any("isinstance" in _av.show(c_) for c_ in _av.find_all(ck[fld], "call") if c_[1] == "isinstance"))]
+    if not (okm and len(conds) == 4) and len(partitioned) == 4:
+        # one mixed collection partitioned by the atoms' types: not the per-kind collections this rule reads
+        ctx.undecided(rule, f.key("component"), "MyokitComponent's fields are partitions of one collection by the type of the atoms; which atom goes where is not judged", f.where())
+    else:
+        ctx.check(okm and len(conds) == 4, rule, f.key("component"), "every collected atom goes into the component", "MyokitComponent is not built from all collected states, parameters, intermediates and derivatives (each as the set of the atoms constructed for the component's variables)", f.where())
     if len(conds) == 4:
         def flat(cs):
             out = []
